@@ -239,9 +239,16 @@ fn cmd_regs(req: &Value) -> Value {
                     None => out.push(json!({"err": format!("unknown reg {name}")})),
                 }
             } else if op.get("readall").is_some() {
-                let mut v = regs_json(&state, false);
+                let mut v = regs_json(&state, op.get("temps").and_then(|v| v.as_bool()).unwrap_or(false));
                 v["PC_accessor"] = json!(state.pc());
                 out.push(v);
+            } else if op.get("snap_map").is_some() {
+                // collect -> apply to a fresh state (the name-keyed register map carried by snapshot bundles, scratch registers included)
+                let regs = sc62015_core::collect_registers(&state);
+                let mut fresh = LlamaState::new();
+                sc62015_core::apply_registers(&mut fresh, &regs);
+                out.push(json!({"fresh": regs_json(&fresh, true),
+                                "collected": regs.iter().map(|(k,v)| (k.clone(), json!(v))).collect::<Map<String,Value>>()}));
             } else if op.get("snap").is_some() {
                 // collect -> pack -> unpack -> apply to a fresh state
                 let regs = sc62015_core::collect_registers(&state);
